@@ -509,11 +509,15 @@ fn find_free_symbols_in_quasiquote<'a>(
                 return find_free_symbols_in_quasiquote(cdr.car().unwrap(), depth + 1, env, free);
             }
             let mut rest = cell;
-            while rest.is_pair() {
+            loop {
                 find_free_symbols_in_quasiquote(rest.car().unwrap(), depth, env, free)?;
                 rest = rest.cdr().unwrap();
+                // a tail spelled `. ,x` is an unquote form, not two more elements
+                if !rest.is_pair() || rest.is_quasi_form() {
+                    break;
+                }
             }
-            Ok(())
+            find_free_symbols_in_quasiquote(rest, depth, env, free)
         }
         _ => Ok(()),
     }
